@@ -90,27 +90,41 @@ impl Parser {
         cursor: &mut ReadCursor,
         payload: &mut FramePayload,
     ) -> Result<Option<Header>, ParseError> {
+        if self.mode == LinkErrorMode::Close {
+            return self.parse_impl(cursor, payload);
+        }
+
+        // Discard mode never consumes part of a frame: every attempt starts at the first
+        // byte of a candidate and either yields a complete frame, or leaves the cursor at
+        // that byte to wait for more data, or (on an error) skips exactly that byte and
+        // rescans. Bytes of a candidate that turns out to be bogus - possibly only after
+        // its body arrived in a later read - are therefore still there for the rescan, and
+        // a valid frame beginning inside them is found whatever the chunking.
         loop {
-            if self.mode == LinkErrorMode::Close {
-                return self.parse_impl(cursor, payload);
-            }
+            self.reset();
+            let start = cursor.remaining();
 
-            // did this attempt begin at the first byte of a candidate frame?
-            let at_frame_start = matches!(self.state, ParseState::FindSync1);
-
-            let res = cursor.transaction(|cur| self.parse_impl(cur, payload));
+            let mut incomplete = false;
+            let res = cursor.transaction(|cur| match self.parse_impl(cur, payload) {
+                Ok(Some(header)) => Ok(header),
+                Ok(None) => {
+                    incomplete = true;
+                    Err(ParseError::BadLogic(LogicError::BadRead))
+                }
+                Err(err) => Err(err),
+            });
 
             match res {
-                Ok(x) => return Ok(x),
+                Ok(header) => return Ok(Some(header)),
+                Err(_) if incomplete => {
+                    // rolled back to the start of the candidate: wait for more bytes
+                    self.reset();
+                    return Ok(None);
+                }
                 Err(_) => {
-                    // If the attempt resumed a frame whose first byte(s) were consumed by a
-                    // previous call, the rolled-back cursor is already past the byte that
-                    // has to be skipped. Skipping another one could discard the START of
-                    // a valid frame that begins in this read.
-                    if at_frame_start {
+                    if start > 0 {
                         let _ = cursor.read_u8(); // advance one byte
                     }
-                    self.reset();
                     // goto next iteration
                 }
             }
